@@ -251,6 +251,14 @@ pub fn rungs() -> Vec<Rung> {
         v.push(rung(&format!("v9-n-cached-{}-then-60000-data-bytes", kind), CACHED_MAX, move |n| Case { prior: prior9(n, opt_cached), input: v9_packet(&V9Pkt::new(vec![V9Set::Data(256, distinct(60000, 9))])) }));
         v.push(rung(&format!("ipfix-n-cached-{}-then-60000-data-bytes", kind), CACHED_MAX, move |n| Case { prior: prior10(n, opt_cached), input: ipfix_message(&IpfixMsg::new(vec![IpfixSet::Data(256, distinct(60000, 9))])) }));
     }
+    // n cached definitions, then a buffer packed with 256 minimal packets: a per-packet cost that depends on how much
+    // the parser remembers (cloning or scanning the caches per packet) multiplies with the number of packets
+    for opt_cached in [false, true] {
+        let kind = if opt_cached { "options-templates" } else { "templates" };
+        v.push(rung(&format!("ipfix-n-cached-{}-then-256-header-only-messages", kind), CACHED_MAX, move |n| Case { prior: prior10(n, opt_cached), input: (0..256).flat_map(|_| ipfix_message(&IpfixMsg::new(vec![]))).collect() }));
+        v.push(rung(&format!("v9-n-cached-{}-then-205-count-0-packets", kind), CACHED_MAX, move |n| Case { prior: prior9(n, opt_cached), input: (0..205).flat_map(|_| v9_packet(&V9Pkt::new(vec![]))).collect() }));
+    }
+    v.push(rung("v9-and-ipfix-n-cached-templates-then-90-v5-packets", CACHED_MAX, move |n| Case { prior: prior9(n, false).into_iter().chain(prior10(n, false)).collect(), input: (0..90).flat_map(|k| fixed_distinct(5, 1, k)).collect() }));
     v.push(rung("v9-failing-record-retry-loop-data-length", 65535 - 24, |nd| Case { prior: vec![v9_tpl_packet(256, &[fs(5, 1), fs(1, 5)])], input: v9_packet(&V9Pkt::new(vec![V9Set::Data(256, distinct(nd, 1))])) }));
     v
 }
